@@ -65,6 +65,125 @@ Proof.
     + right. eapply reply_witness_mono; [apply incl_appr, incl_refl|apply incl_appr, incl_refl|exact W].
 Qed.
 
+(* ---------- the data fold (C04 clause 10) ---------- *)
+Lemma flat_disp_in :
+  (forall m dd pi, In pi (flat_msg dd m) ->
+     (pi_disp pi = dd /\ pi_ep pi <> EReply) \/ exists d', pi_disp pi = Some d' /\ In d' (nodes_msg m)) /\
+  (forall p e0 dd rep f t i pi, In pi (flat_prog e0 dd rep f t i p) ->
+     (pi_disp pi = dd /\ pi_ep pi = e0) \/ exists d', pi_disp pi = Some d' /\ In d' (nodes_prog p)) /\
+  (forall o0 d pi, In pi (flat_out d o0) -> exists d', pi_disp pi = Some d' /\ (d' = d \/ In d' (nodes_out o0))) /\
+  (forall l d pi, In pi (flat_subs d l) -> exists d', pi_disp pi = Some d' /\ (d' = d \/ In d' (nodes_subs l))) /\
+  (forall sb d pi, In pi (flat_sub d sb) -> exists d', pi_disp pi = Some d' /\ (d' = d \/ In d' (nodes_sub sb))).
+Proof.
+  apply exec_mutind; try (intros; cbn [flat_msg flat_out flat_subs In] in *; contradiction).
+  - intros c p IH funds dd pi Hi. destruct (IH _ _ _ _ _ _ _ Hi) as [[A B]|H]; [left; split; [exact A|rewrite B; discriminate]|right; exact H].
+  - intros cid p IH funds label admin salt dd pi Hi.
+    destruct (IH _ _ _ _ _ _ _ Hi) as [[A B]|H]; [left; split; [exact A|rewrite B; discriminate]|right; exact H].
+  - intros c nc p IH dd pi Hi. destruct (IH _ _ _ _ _ _ _ Hi) as [[A B]|H]; [left; split; [exact A|rewrite B; discriminate]|right; exact H].
+  - intros node acts o0 IH e0 dd rep f t i pi Hi. cbn [flat_prog] in Hi. fold (flat_out node o0) in Hi.
+    cbn [nodes_prog]. fold (nodes_out o0). destruct Hi as [<-|Hi]; [left; split; reflexivity|]. right.
+    destruct (IH node pi Hi) as (d' & A & [B|B]); exists d'; (split; [exact A|]); [left; symmetry; exact B|right; exact B].
+  - intros attrs events data sbs IH d pi Hi. exact (IH d pi Hi).
+  - intros sb IH r IHr d pi Hi. cbn [flat_subs nodes_subs] in *. apply in_app_or in Hi as [Hi|Hi].
+    + destruct (IH d pi Hi) as (d' & A & [B|B]); exists d'; (split; [exact A|]); [left; exact B|right; apply in_or_app; left; exact B].
+    + destruct (IHr d pi Hi) as (d' & A & [B|B]); exists d'; (split; [exact A|]); [left; exact B|right; apply in_or_app; right; exact B].
+  - intros id payload ro m IHm on_ok IHok on_err IHerr d pi Hi. cbn [flat_sub nodes_sub] in *.
+    apply in_app_or in Hi as [Hi|Hi]; [|apply in_app_or in Hi as [Hi|Hi]].
+    + destruct (IHm (Some d) pi Hi) as [[A _]|(d' & A & B)]; [exists d; auto|].
+      exists d'. split; [exact A|]. right. apply in_or_app. left. exact B.
+    + destruct (IHok _ _ _ _ _ _ _ Hi) as [[A _]|(d' & A & B)]; [exists d; auto|].
+      exists d'. split; [exact A|]. right. apply in_or_app. right. apply in_or_app. left. exact B.
+    + destruct (IHerr _ _ _ _ _ _ _ Hi) as [[A _]|(d' & A & B)]; [exists d; auto|].
+      exists d'. split; [exact A|]. right. apply in_or_app. right. apply in_or_app. right. exact B.
+Qed.
+
+Lemma flat_map_nil {A B} (f : A -> list B) l : (forall x, In x l -> f x = []) -> flat_map f l = [].
+Proof.
+  induction l as [|x l IH]; intros H; [reflexivity|]. cbn [flat_map]. rewrite (H x (or_introl eq_refl)).
+  apply IH. intros y Hy. apply H. right. exact Hy.
+Qed.
+Lemma dr_app infos root a b : direct_replies infos root (a ++ b) = direct_replies infos root a ++ direct_replies infos root b.
+Proof. apply flat_map_app. Qed.
+Lemma dr_no_calls infos root tr : Forall not_call tr -> direct_replies infos root tr = [].
+Proof.
+  intros H. apply flat_map_nil. intros en Hen. rewrite Forall_forall in H. specialize (H en Hen).
+  destruct en; cbn in H; try contradiction; reflexivity.
+Qed.
+
+(* nothing logged inside a sub-message is a reply to a DIRECT sub-message of the dispatcher *)
+Lemma msg_no_direct e infos root c m s : NoDup (map pi_node infos) -> incl (flat_msg (Some root) m) infos ->
+  ~ In root (nodes_msg m) -> direct_replies infos root (trc (run_msg e c m s)) = [].
+Proof.
+  intros Hn Hi Hr. apply flat_map_nil. intros en Hen.
+  pose proof (proj1 (exec_entries e) m c s (Some root)) as A. unfold all_ok in A. rewrite Forall_forall in A. specialize (A en Hen).
+  destruct en as [n ep c1 sd f b t rp| | |]; try reflexivity. destruct ep; try reflexivity.
+  cbn [entry_ok] in A. destruct A as (pi & Hpi & Hnode & Hep & _).
+  pose proof (find_info_unique _ _ Hn (Hi pi Hpi)) as Fi. rewrite Hnode in Fi. rewrite Fi.
+  destruct (proj1 flat_disp_in m (Some root) pi Hpi) as [[_ B]|(d' & A & B)]; [contradiction|].
+  rewrite A. cbn. destruct (d' =? root) eqn:E; [|reflexivity]. apply N.eqb_eq in E. subst. contradiction.
+Qed.
+
+Definition dfold (reps : list prog) (acc : option bytes) : option bytes :=
+  fold_left (fun acc q => or_data (own_data q) acc) reps acc.
+
+(* a reply handler that ran to completion for a direct sub-message of [root] *)
+Lemma reply_fold e c infos root pr rep' inside res rok s tr0 ev d s2 :
+  NoDup (map pi_node infos) -> In (root_info EReply (Some root) rep' [] None inside pr) infos ->
+  run_prog e EReply c None [] res 0 rok pr s = (tr0, Ok ((ev, d), s2)) ->
+  forallb prog_leaf (direct_replies infos root tr0) = true ->
+  forall acc, dfold (direct_replies infos root tr0) acc = or_data d acc.
+Proof.
+  intros Hn Hi E.
+  destruct (run_prog_ok_inv _ _ _ _ _ _ _ _ _ _ _ _ _ _ E) as (node & acts & attrs & events & data & sbs & co & tr_s & ev_s & -> & _ & Es & -> & _).
+  pose proof (find_info_unique _ _ Hn Hi) as Fi. cbn [root_info pi_node node_of] in Fi.
+  assert (Eh : direct_replies infos root [hdr e node EReply c None [] co res] = [Prog node acts (OResp attrs events data sbs)]).
+  { cbn [direct_replies flat_map hdr]. rewrite Fi. cbn [pi_disp pi_prog root_info option_eqb]. rewrite N.eqb_refl. reflexivity. }
+  change (hdr e node EReply c None [] co res :: body_tr e s node c acts ++ tr_s)
+    with ([hdr e node EReply c None [] co res] ++ body_tr e s node c acts ++ tr_s).
+  rewrite !dr_app, Eh. rewrite (dr_no_calls infos root (body_tr e s node c acts)) by apply actions_no_calls.
+  cbn [app forallb prog_leaf]. destruct sbs; [|discriminate]. cbn in Es. injection Es as <- _ <- _. intros _ acc. reflexivity.
+Qed.
+
+Lemma sub_fold e c infos root sb s tr ev d s1 : NoDup (map pi_node infos) -> incl (flat_sub root sb) infos ->
+  ~ In root (nodes_sub sb) -> run_sub e c sb s = (tr, Ok ((ev, d), s1)) ->
+  forallb prog_leaf (direct_replies infos root tr) = true ->
+  forall acc, dfold (direct_replies infos root tr) acc = or_data d acc.
+Proof.
+  destruct sb as [id payload ro m on_ok on_err]. intros Hn Hi Hr. cbn [flat_sub nodes_sub] in *. rewrite !flat_prog_eq in Hi.
+  assert (Hm : direct_replies infos root (trc (run_msg e c m s)) = []).
+  { apply msg_no_direct; [exact Hn| |].
+    - intros x Hx. apply Hi. apply in_or_app. left. exact Hx.
+    - intros Hx. apply Hr. apply in_or_app. left. exact Hx. }
+  rewrite run_sub_spec. unfold reply_run.
+  destruct (run_msg e c m s) as [t0 [[[ev0 d0] s0]| |]]; cbn [trc fst] in Hm; try discriminate.
+  - destruct (wants_ok ro).
+    + destruct (run_prog e EReply c None [] (Some (id, payload, RROk ev0 d0)) 0 true on_ok s0) as [t2 [[[ev2 d2] s2]| |]] eqn:Er;
+        intros H; try discriminate. injection H as <- _ <- _. rewrite dr_app, Hm. cbn [app].
+      eapply reply_fold; [exact Hn| |exact Er]. apply Hi. apply in_or_app. right. apply in_or_app. left. left. reflexivity.
+    + intros H. injection H as <- _ <- _. rewrite Hm. intros _ acc. reflexivity.
+  - destruct (wants_err ro); [|discriminate].
+    destruct (run_prog e EReply c None [] (Some (id, payload, RRErr)) 0 false on_err s) as [t2 r2] eqn:Er.
+    intros H. injection H as <- ->. rewrite dr_app, Hm. cbn [app].
+    eapply reply_fold; [exact Hn| |exact Er]. apply Hi. apply in_or_app. right. apply in_or_app. right. left. reflexivity.
+Qed.
+
+Lemma subs_fold e c infos root : forall l data s tr ev d s', NoDup (map pi_node infos) -> incl (flat_subs root l) infos ->
+  ~ In root (nodes_subs l) -> process_subs e c l data s = (tr, Ok ((ev, d), s')) ->
+  forallb prog_leaf (direct_replies infos root tr) = true -> d = dfold (direct_replies infos root tr) data.
+Proof.
+  induction l as [|sb r IH]; intros data s tr ev d s' Hn Hi Hr.
+  - cbn. intros H. injection H as <- _ <- _. reflexivity.
+  - rewrite process_subs_cons. cbn [flat_subs nodes_subs] in *.
+    destruct (run_sub e c sb s) as [tr1 [[[ev1 d1] s1]| |]] eqn:E1; try discriminate.
+    destruct (process_subs e c r (or_data d1 data) s1) as [tr2 [[[ev2 d2] s2]| |]] eqn:E2; intros H; try discriminate.
+    injection H as <- _ <- _. rewrite dr_app, forallb_app. intros Hl. apply andb_true_iff in Hl as [Hl1 Hl2].
+    unfold dfold. rewrite fold_left_app. fold (dfold (direct_replies infos root tr1) data).
+    rewrite (sub_fold e c infos root sb s tr1 ev1 d1 s1 Hn); [| |intros Hx; apply Hr; apply in_or_app; left; exact Hx|exact E1|exact Hl1].
+    + refine (IH _ _ _ _ _ _ Hn _ _ E2 Hl2); [|intros Hx; apply Hr; apply in_or_app; right; exact Hx].
+      intros x Hx. apply Hi. apply in_or_app. right. exact Hx.
+    + intros x Hx. apply Hi. apply in_or_app. left. exact Hx.
+Qed.
+
 Section Step.
 Variable ce : case_env.
 Variable st : step.
@@ -182,5 +301,42 @@ Proof.
         -- fold tr in Et. rewrite Et. eapply reply_witness_mono; [apply incl_refl| |exact W].
            intros x Hx. right. apply in_or_app. right. exact Hx.
         -- cbn [flat_op flat_prog]. intros x Hx. right. exact Hx.
+  - (* 10 *) destruct o as [rs| |] eqn:Eo; try reflexivity. destruct rs as [|[ev d] [|]]; try reflexivity.
+    pose proof (Hni st s Hpre) as Hu. pose proof (Hn st s Hpre) as Hnn. fold op in Hu, Hnn.
+    destruct op as [sd ms|sd m|c p|to amt|sd m|sd m] eqn:Eop; try reflexivity.
+    + destruct m; try reflexivity.
+      destruct (texec_call_ok e sd (MExec c p funds) p s _ eq_refl Eo) as (c0 & ev0 & d0 & s1 & s2 & _ & Ht & Er & E1 & _).
+      specialize (Ht c eq_refl). subst c0. injection E1 as -> ->.
+      destruct (run_prog_ok_inv _ _ _ _ _ _ _ _ _ _ _ _ _ _ Er) as (node & acts & attrs & events & data & sbs & co & tr_s & ev_s & -> & _ & Es & Et & ->).
+      fold tr in Et. rewrite Et.
+      change (hdr e node (msg_entry (MExec c (Prog node acts (OResp attrs events data sbs)) funds)) c
+                (msg_sender (MExec c (Prog node acts (OResp attrs events data sbs)) funds) sd)
+                (msg_funds (MExec c (Prog node acts (OResp attrs events data sbs)) funds)) co None :: body_tr e s1 node c acts ++ tr_s)
+        with ([hdr e node EExec c (Some sd) funds co None] ++ body_tr e s1 node c acts ++ tr_s).
+      rewrite !dr_app. rewrite (dr_no_calls _ node (body_tr e s1 node c acts)) by apply actions_no_calls.
+      cbn [direct_replies flat_map hdr app].
+      destruct (forallb prog_leaf (direct_replies (flat_op (TExec sd (MExec c (Prog node acts (OResp attrs events data sbs)) funds))) node tr_s)) eqn:El;
+        [|reflexivity]. cbn [negb orb].
+      assert (HI : incl (flat_subs node sbs) (flat_op (TExec sd (MExec c (Prog node acts (OResp attrs events data sbs)) funds)))).
+      { cbn [flat_op top_msgs flat_map flat_msg flat_prog]. intros x Hx. apply in_or_app. left. right. exact Hx. }
+      assert (HR : ~ In node (nodes_subs sbs)).
+      { cbn [nodes_op top_msgs flat_map nodes_msg nodes_prog] in Hnn. rewrite app_nil_r in Hnn. inversion Hnn; assumption. }
+      rewrite (subs_fold e c _ node sbs data _ _ _ _ _ Hu HI HR Es El).
+      cbn [own_data msg_data]. apply obytes_eqb_refl.
+    + destruct (tsudo_ok e c p s _ Eo) as (ev0 & d0 & s2 & Er & E1 & _). injection E1 as -> ->.
+      destruct (run_prog_ok_inv _ _ _ _ _ _ _ _ _ _ _ _ _ _ Er) as (node & acts & attrs & events & data & sbs & co & tr_s & ev_s & -> & _ & Es & Et & ->).
+      fold tr in Et. rewrite Et.
+      change (hdr e node ESudo c None [] co None :: body_tr e s node c acts ++ tr_s)
+        with ([hdr e node ESudo c None [] co None] ++ body_tr e s node c acts ++ tr_s).
+      rewrite !dr_app. rewrite (dr_no_calls _ node (body_tr e s node c acts)) by apply actions_no_calls.
+      cbn [direct_replies flat_map hdr app].
+      destruct (forallb prog_leaf (direct_replies (flat_op (TWasmSudo c (Prog node acts (OResp attrs events data sbs)))) node tr_s)) eqn:El;
+        [|reflexivity]. cbn [negb orb].
+      assert (HI : incl (flat_subs node sbs) (flat_op (TWasmSudo c (Prog node acts (OResp attrs events data sbs))))).
+      { cbn [flat_op flat_prog]. intros x Hx. right. exact Hx. }
+      assert (HR : ~ In node (nodes_subs sbs)).
+      { cbn [nodes_op nodes_prog] in Hnn. inversion Hnn; assumption. }
+      rewrite (subs_fold e c _ node sbs data _ _ _ _ _ Hu HI HR Es El).
+      cbn [own_data]. apply obytes_eqb_refl.
 Qed.
 End Step.
